@@ -709,6 +709,15 @@ def run(ctx: Ctx) -> int:
             has_s = arms_S.get(i, 0) > 0 or any(call_leaf(c) == "adapt_class_type" for s in a.body for c in calls_in(s))
             ctx.oblige("C01.e", has_s, a, f"arm `{src(a.test, 50)}` deserialises to a non-JSON type and has a serialising counterpart" if has_s else f"arm `{src(a.test, 50)}` converts on parse but has no serialising branch: its values cannot be dumped back", fn=ad)
 
+    # ---------------- C01.f: the sub-files of a multi-file save are serialised with the caller's options -----------------------
+    sv1 = ctx.func("_core:ArgumentParser.save")
+    sk = [s_ for s_ in walk_local(sv1) if isinstance(s_, ast.Assign) and isinstance(s_.value, ast.Dict) and any(const_str(k) == "skip_none" for k in s_.value.keys)]
+    ctx.floor("C01.f-save-serialize-kwargs", len(sk), 1)
+    for s_ in sk:
+        dv = dict(zip([const_str(k) for k in s_.value.keys], s_.value.values))
+        ok = isinstance(dv["skip_none"], ast.Name) and dv["skip_none"].id == "skip_none" and "skip_none" in [a.arg for a in sv1.args.args + sv1.args.kwonlyargs]
+        ctx.oblige("C01.f", ok, s_, "sub-files are serialised with the skip_none the caller asked for" if ok else f"sub-files are serialised with skip_none={ast.unparse(dv['skip_none'])} whatever the caller passed: with save(..., skip_none=False, multifile=True) a None that overrides a non-None default is dropped from the sub-file only, and parse_path of the saved main file returns the default", fn=sv1)
+
     return ctx.finish(
         explanation=(
             "(a) PyYAML's implicit-resolver tables of the customised loader and of the dumper are read from source (stock table from yaml/resolver.py, edits from "
